@@ -34,6 +34,11 @@ def index_parts(idx):
     p = idx if isinstance(idx, Poly) else None
     at = p.as_atom() if p is not None else None
     if isinstance(at, tuple) and at:
+        if at[0] == '[]' and isinstance(at[1], tuple) and at[1][:1] == ('call',) and len(at[1]) == 4 and not at[1][3] and isinstance(at[2], int) \
+                and not isinstance(at[2], bool) and 0 <= at[2] < len(at[1][2]) and len(at[1][2]) > 1:
+            # one component of mapper(label_0, label_1, ...): the index of that label
+            lab = term_from_key(at[1][2][at[2]])
+            if lab is not None: return [('map', at[1][1], lab)]
         if at[0] == '[]':
             lab = term_from_key(at[2])
             if lab is not None: return [('map', at[1], lab)]
